@@ -606,6 +606,86 @@ def check_v2(case, ctx: Ctx):
                          f"state at {ta} us = {np.max(np.abs(a - b)):.3e}")
 
 
+@st.composite
+def leak_cases(draw):
+    return dict(n=draw(st.integers(1, 2)), d=draw(st.sampled_from([100, 300, 500])),
+                amp=draw(gen.fl(1.0, 8.0)), rate=draw(st.sampled_from([0.5, 2.0])),
+                src=draw(st.sampled_from(["r", "g"])), deph=draw(st.sampled_from([0.0, 0.5])),
+                idle_first=draw(st.booleans()))
+
+
+def check_leak(case, ctx: Ctx):
+    """A noise model with a leakage state (|x>, fed by an effective-noise operator): the bit of an
+    atom found in |x> is 0, and the V2 backend gives the same state as the legacy emulator."""
+    import qutip
+    from pulser import Pulse, Register, Sequence
+    from pulser.backend import StateResult
+    from pulser.devices import MockDevice
+    from pulser.noise_model import NoiseModel
+    from pulser_simulation import QutipBackendV2, QutipConfig, QutipEmulator, SimConfig
+
+    C = "C11.leakage"
+    n = case["n"]
+    seq = Sequence(Register({f"q{i}": (i * 20.0, 0.0) for i in range(n)}), MockDevice)
+    seq.declare_channel("ch", "rydberg_global")
+    seq.add(Pulse.ConstantPulse(case["d"], case["amp"], 0.0, 0.0), "ch")
+    idx = {"r": 0, "g": 1, "x": 2}
+    op = (qutip.basis(3, 2) * qutip.basis(3, idx[case["src"]]).dag()).full()
+    kw = dict(eff_noise_rates=(case["rate"],), eff_noise_opers=(op,), with_leakage=True)
+    if case["deph"]:
+        kw["dephasing_rate"] = case["deph"]
+    nm = ctx.must(lambda: NoiseModel(**kw), C, "NoiseModel with leakage")
+    if case.get("idle_first"):
+        # the same noise model on a sequence that drives nothing (no basis addressed), first
+        idle = Sequence(Register({f"q{i}": (i * 20.0, 0.0) for i in range(n)}), MockDevice)
+        idle.declare_channel("ch", "rydberg_global")
+        idle.delay(100, "ch")
+        ctx.must(lambda: QutipEmulator.from_sequence(idle, config=SimConfig.from_noise_model(nm)), C,
+                 "legacy emulator on an idle sequence")
+        ctx.label("idle_sequence_with_leakage_first")
+    # emulating one configuration does not change the emulation of another: without noise the
+    # atoms have two levels
+    plain = ctx.must(lambda: QutipEmulator.from_sequence(seq), C, "noiseless emulator")
+    if plain.dim != 2 or list(plain._hamiltonian.eigenbasis) != ["r", "g"]:
+        ctx.fail(C, "leakage_state_persists_in_later_emulations",
+                 f"a noiseless emulator built after one with a leakage noise model has {plain.dim} levels per atom "
+                 f"({plain._hamiltonian.eigenbasis})")
+    sim = ctx.must(lambda: QutipEmulator.from_sequence(seq, config=SimConfig.from_noise_model(nm),
+                                                       evaluation_times="Minimal"), C, "legacy emulator")
+    leg = ctx.must(lambda: sim.run(), C, "legacy run")
+    rho = leg.get_final_state().full()
+    pops = np.real(np.diag(rho))
+    ctx.nontrivial(True)
+    # legacy bitstring distribution: only |r> counts as 1, per atom, register order
+    w = np.zeros(2 ** n)
+    for bits_, p_ in list(leg)[-1].sampling_dist.items():
+        w[int(bits_, 2)] = p_
+    exp = np.zeros(2 ** n)
+    for k, pk in enumerate(pops):
+        digits = [(k // 3 ** (n - 1 - i)) % 3 for i in range(n)]
+        bits = "".join("1" if dg == 0 else "0" for dg in digits)
+        exp[int(bits, 2)] += pk
+    exp = exp / exp.sum()
+    if w.shape != exp.shape or np.max(np.abs(w - exp)) > 1e-9:
+        ctx.fail(C, "legacy:bit_of_leaked_atom",
+                 f"populations (r,g,x per atom, register order) {np.round(pops, 4).tolist()}: bitstring weights "
+                 f"{np.round(w, 4).tolist()}, expected {np.round(exp, 4).tolist()}")
+    # the V2 backend on the same configuration
+    try:
+        res = QutipBackendV2(seq, config=QutipConfig(noise_model=nm, observables=[StateResult()])).run()
+        st_ = res.state[-1]
+    except Exception as e:  # noqa: BLE001
+        ctx.fail(C, f"v2_run:with_leakage:{type(e).__name__}",
+                 f"the legacy emulator runs this configuration, QutipBackendV2 raises {type(e).__name__}: {str(e)[:200]}",
+                 cont=True)
+        return
+    b = st_.to_qobj().full()
+    if b.shape != rho.shape or np.max(np.abs(b / np.trace(b) - rho / np.trace(rho))) > 1e-5:
+        ctx.fail(C, "v2_state_differs:with_leakage", f"max difference {np.max(np.abs(b - rho)) if b.shape == rho.shape else 'shape'}")
+    if tuple(st_.eigenstates) != ("r", "g", "x"):
+        ctx.fail(C, "v2_eigenstates:with_leakage", f"{st_.eigenstates}")
+
+
 def enum_durations(tier):
     step = 1
     for lo in range(4, 3001, 250):
@@ -663,6 +743,10 @@ CLAUSES = [
            budget={"quick": (16, 8), "thorough": (16, 120)},
            doc="V2 backend with output modulation: relative evaluation times refer to the duration "
                "including the fall time; states agree with the legacy emulator at those times"),
+    Clause("leakage", check_leak, gen=lambda t: leak_cases(),
+           budget={"quick": (4, 6), "thorough": (16, 40)},
+           doc="noise model with a leakage state: a leaked atom reads 0 (legacy), and the V2 backend gives the "
+               "legacy emulator's state"),
     Clause("v2_durations", check_durations, enum=enum_durations,
            budget={"quick": (12, 0), "thorough": (12, 0)}, exhaustive=True,
            doc="every duration 4..3000 ns on the V2 backend with default evaluation times"),
